@@ -422,6 +422,17 @@ def install():
 
     def p_isinstance(inst, cls):
         r = active()
+        if r is not None and cls is netref.BaseNetref and _top_handler(r) in ("_handle_instancecheck", "_handle_inspect") \
+                and not _in_check(r) and r.pv(inst).startswith("o"):
+            # "is this table object itself a proxy?" (however it is spelled: see p_hasattr for `____conn__`)
+            r.touch("probeconn", inst)
+            try:
+                res = real_isinstance(inst, cls)
+            except BaseException as ex:
+                r.failed(ex)
+                raise
+            r.done(res)
+            return res
         if r is None or _top_handler(r) != "_handle_instancecheck" or cls is netref.BaseNetref \
                 or not real_isinstance(inst, netref.BaseNetref):
             return real_isinstance(inst, cls)
